@@ -54,7 +54,7 @@ package model
 //@   property C09 C14 C16 C17 C07 C08 C20 C01 C11 C12 C13 C18 C19
 //@   ensures [len] len(result) == len(p.ConsideredAlternatives) + len(p.NotConsideredAlternatives)
 //@   ensures [concat] forall k int :: 0 <= k && k < len(result) ==> result[k] == altAt(p.ConsideredAlternatives, p.NotConsideredAlternatives, k)
-//@   ensures [C09 fresh] fresh(result)
+//@   ensures [fresh] fresh(result)
 
 // ---- weights.go
 
@@ -264,7 +264,7 @@ package model
 //@   property C19 C18 C20 C09
 //@   ensures [ratio] result == ((currentRange.Max - currentRange.Min) != 0.0 ? 1.0 / (currentRange.Max - currentRange.Min) : 0.0)
 //@ func ValuesRangeWithGroundZero
-//@   property C18 C09
+//@   property C18 C09 C01 C07 C20
 //@   ensures [ground_zero] fresh(result) && result.Min == 0.0
 //@   ensures [declared] criterion.ValuesRange != nil ==> result.Max == max(max(abs(criterion.ValuesRange.Min), abs(criterion.ValuesRange.Max)), criterion.ValuesRange.Max - criterion.ValuesRange.Min)
 //@   ensures [nonneg] result.Max >= 0.0
@@ -324,7 +324,7 @@ package model
 //@   loop 1 invariant [extended] forall i int :: 0 <= i && i < iter ==> extendedBy(newAlts[i], (*alternatives)[i], newCriterion.Id) && fresh(newAlts[i].Criteria)
 
 //@ func SortAlternativesByName
-//@   property C18 C09 C02 C01 C03 C04 C14 C16 C07
+//@   property C18 C09 C02 C01 C03 C04 C14 C16 C07 C20
 //@   ensures [fresh_copy] fresh(result) && fresh(*result) && len(*result) == len(*alternatives)
 //@   ensures [members] forall k int :: 0 <= k && k < len(*result) ==> exists j int :: 0 <= j && j < len(*alternatives) && (*result)[k] == (*alternatives)[j]
 //@   ensures [all_present] forall j int :: 0 <= j && j < len(*alternatives) ==> exists k int :: 0 <= k && k < len(*result) && (*result)[k] == (*alternatives)[j]
@@ -366,7 +366,7 @@ package model
 //@   nopanic
 //@   ensures [copy] fresh(result) && fresh(*result) && len(*result) == len(*c) && (forall i int :: 0 <= i && i < len(*c) ==> (*result)[i] == (*c)[i]) && unchanged(*c)
 //@ func (*Criteria).Len
-//@   property C20 C07 C09 C15
+//@   property C20 C07 C09 C15 C01 C18
 //@   nopanic
 //@   ensures result == len(*c)
 //@ func (Criterion).Identifier
@@ -443,16 +443,16 @@ package model
 //@   requires [values_present] hasValues(params.ConsideredAlternatives, params.Criteria) && hasValues(params.NotConsideredAlternatives, params.Criteria)
 //@   requires [parameters_cover] validParams(listenerOf(*listeners, dm.PreferenceFunction), params.MethodParameters) && coversAll(listenerOf(*listeners, dm.PreferenceFunction), params.MethodParameters, params.Criteria)
 //@   requires [alternatives_distinct] distinctAlts(*params)
-//@   ensures [C08 one_entry_per_bias] fresh(result1) && len(*result1) == len(*biases)
-//@   ensures [C08 echo] forall i int :: 0 <= i && i < len(*biases) ==> typeis((*result1)[i], BiasParams)
+//@   ensures [one_entry_per_bias] fresh(result1) && len(*result1) == len(*biases)
+//@   ensures [echo] forall i int :: 0 <= i && i < len(*biases) ==> typeis((*result1)[i], BiasParams)
 //@             && (*result1)[i].(BiasParams).Name == (*biases)[i].Props.Name
 //@             && (*result1)[i].(BiasParams).ApplyProbability == (*biases)[i].Props.ApplyProbability && !(*result1)[i].(BiasParams).Disabled
-//@   ensures [C08 not_fired_reports_null] forall i int :: 0 <= i && i < len(*biases) && !fires(dm, biasApplyProbGenerator, biases, i) ==> isnil((*result1)[i].(BiasParams).Props)
-//@   ensures [C08 nothing_fired_changes_nothing] (forall i int :: 0 <= i && i < len(*biases) ==> !fires(dm, biasApplyProbGenerator, biases, i)) ==> result0 == params
+//@   ensures [not_fired_reports_null] forall i int :: 0 <= i && i < len(*biases) && !fires(dm, biasApplyProbGenerator, biases, i) ==> isnil((*result1)[i].(BiasParams).Props)
+//@   ensures [nothing_fired_changes_nothing] (forall i int :: 0 <= i && i < len(*biases) ==> !fires(dm, biasApplyProbGenerator, biases, i)) ==> result0 == params
 //@   ensures [the_state_the_last_fired_bias_left_is_handed_on] forall i int :: 0 <= i && i < len(*biases) && fires(dm, biasApplyProbGenerator, biases, i)
 //@             && (forall j int :: i < j && j < len(*biases) ==> !fires(dm, biasApplyProbGenerator, biases, j)) ==> exists prev *DecisionMakingParams :: actsOn(*(*biases)[i].Bias, result0, prev)
-//@   ensures [C07 well_formed] result0 != nil && wellFormed(listenerOf(*listeners, dm.PreferenceFunction), *result0)
-//@   ensures [C07 same_alternatives] sameAlts(*result0, *params)
+//@   ensures [well_formed] result0 != nil && wellFormed(listenerOf(*listeners, dm.PreferenceFunction), *result0)
+//@   ensures [same_alternatives] sameAlts(*result0, *params)
 //@   loop 1 invariant [draws] generator == appfn(biasApplyProbGenerator, dm.BiasApplyRandomSeed) && calls(generator) == iter
 //@   loop 1 invariant [ctx] fresh(result) && len(result) == len(*biases) && biasesToProcessCount == len(*biases) && listener != nil && *listener == listenerOf(*listeners, dm.PreferenceFunction)
 //@   loop 1 invariant [state] current != nil && wellFormed(listenerOf(*listeners, dm.PreferenceFunction), *current) && sameAlts(*current, *params)
@@ -576,12 +576,12 @@ package model
 //@   requires [distinct_alternatives] (forall i int, j int :: 0 <= i && i < j && j < len(dm.KnownAlternatives) ==> dm.KnownAlternatives[i].Id != dm.KnownAlternatives[j].Id)
 //@             && (forall i int, j int :: 0 <= i && i < j && j < len(dm.ChoseToMake) ==> dm.ChoseToMake[i] != dm.ChoseToMake[j])
 //@   requires [some_criterion] len(dm.Criteria) > 0
-//@   ensures [C20 validated_before_answering] validCriteria(dm.Criteria)
+//@   ensures [validated_before_answering] validCriteria(dm.Criteria)
 //@             && (forall i int, c int :: 0 <= i && i < len(dm.KnownAlternatives) && 0 <= c && c < len(dm.Criteria) ==> dm.Criteria[c].Id in dm.KnownAlternatives[i].Criteria)
 //@   returnhint [the_named_method_ranks_the_state_the_biases_left] *preferenceFunction == funcOf(preferenceFunctions, dm.PreferenceFunction)
 //@             && isEvaluation(res, *preferenceFunction, processedParams) && result.Result == *res && result.Biases == *biasesProps
-//@   ensures [C20 only_a_registered_method_is_evaluated] exists k int :: 0 <= k && k < len(preferenceFunctions.Functions) && utils.identOf(preferenceFunctions.Functions[k]) == dm.PreferenceFunction
-//@   ensures [C08 one_report_per_enabled_bias] result != nil && forall i int :: 0 <= i && i < len(result.Biases) ==> typeis(result.Biases[i], BiasParams) && !result.Biases[i].(BiasParams).Disabled
+//@   ensures [only_a_registered_method_is_evaluated] exists k int :: 0 <= k && k < len(preferenceFunctions.Functions) && utils.identOf(preferenceFunctions.Functions[k]) == dm.PreferenceFunction
+//@   ensures [one_report_per_enabled_bias] result != nil && forall i int :: 0 <= i && i < len(result.Biases) ==> typeis(result.Biases[i], BiasParams) && !result.Biases[i].(BiasParams).Disabled
 
 // ---- alternative.go: evaluation results and rankings (C01, C03, C04)
 
@@ -651,13 +651,13 @@ package model
 //@   ensures [entries_are_inputs] forall i int :: 0 <= i && i < len(*result) ==> typeis((*result)[i].Evaluation, EvaluationSingleValue)
 //@             && exists j int :: 0 <= j && j < len(*a) && (*result)[i].Alternative == (*a)[j].Alternative && val((*result)[i].AlternativeResult) == round8(val((*a)[j]))
 //@   ensures [all_inputs_present] forall j int :: 0 <= j && j < len(*a) ==> exists i int :: 0 <= i && i < len(*result) && (*result)[i].Alternative == (*a)[j].Alternative
-//@   ensures [C04 ordered_by_value_then_id] forall i int, j int :: 0 <= i && i < j && j < len(*result) ==> !ordered((*result)[j].AlternativeResult, (*result)[i].AlternativeResult)
+//@   ensures [ordered_by_value_then_id] forall i int, j int :: 0 <= i && i < j && j < len(*result) ==> !ordered((*result)[j].AlternativeResult, (*result)[i].AlternativeResult)
 //@   ensures [distinct_ids] forall i int, j int :: 0 <= i && i < j && j < len(*result) ==> (*result)[i].Alternative.Id != (*result)[j].Alternative.Id
 //@   ensures [links_complete] forall i int, j int :: 0 <= i && i < len(*result) && 0 <= j && j < len(*result) && linkedR(*result, val((*result)[i].AlternativeResult), (*result)[i].Alternative.Id, j) ==>
 //@             exists m int :: 0 <= m && m < len((*result)[i].BetterThanOrSameAs) && (*result)[i].BetterThanOrSameAs[m] == (*result)[j].Alternative.Id
 //@   ensures [links_sound] forall i int, m int :: 0 <= i && i < len(*result) && 0 <= m && m < len((*result)[i].BetterThanOrSameAs) ==>
 //@             exists j int :: 0 <= j && j < len(*result) && (*result)[i].BetterThanOrSameAs[m] == (*result)[j].Alternative.Id && linkedR(*result, val((*result)[i].AlternativeResult), (*result)[i].Alternative.Id, j)
-//@   ensures [C01 no_self_no_duplicates] forall i int, m int :: 0 <= i && i < len(*result) && 0 <= m && m < len((*result)[i].BetterThanOrSameAs) ==>
+//@   ensures [no_self_no_duplicates] forall i int, m int :: 0 <= i && i < len(*result) && 0 <= m && m < len((*result)[i].BetterThanOrSameAs) ==>
 //@             (*result)[i].BetterThanOrSameAs[m] != (*result)[i].Alternative.Id
 //@             && (forall q int :: m < q && q < len((*result)[i].BetterThanOrSameAs) ==> (*result)[i].BetterThanOrSameAs[m] != (*result)[i].BetterThanOrSameAs[q])
 //@   returnhint [entries] len(ranking) == len(alternativeResults) && forall k int :: 0 <= k && k < len(ranking) ==> ranking[k].AlternativeResult == alternativeResults[k]
@@ -702,16 +702,16 @@ package model
 //@   fnparam pref ensures result != nil && typeis(result.Evaluation, EvaluationSingleValue) && result.Alternative == *arg0
 //@   requires [distinct] forall i int, j int :: 0 <= i && i < j && j < len(dmp.ConsideredAlternatives) ==> dmp.ConsideredAlternatives[i].Id != dmp.ConsideredAlternatives[j].Id
 //@   ensures [one_entry_each] fresh(result) && len(*result) == len(dmp.ConsideredAlternatives)
-//@   ensures [C03 entries_are_evaluations] forall i int :: 0 <= i && i < len(*result) ==> typeis((*result)[i].Evaluation, EvaluationSingleValue)
+//@   ensures [entries_are_evaluations] forall i int :: 0 <= i && i < len(*result) ==> typeis((*result)[i].Evaluation, EvaluationSingleValue)
 //@             && exists j int :: 0 <= j && j < len(dmp.ConsideredAlternatives) && (*result)[i].Alternative == dmp.ConsideredAlternatives[j]
 //@             && val((*result)[i].AlternativeResult) == round8(val(*appptr(pref, dmp.ConsideredAlternatives[j])))
 //@   ensures [all_considered_present] forall j int :: 0 <= j && j < len(dmp.ConsideredAlternatives) ==> exists i int :: 0 <= i && i < len(*result) && (*result)[i].Alternative == dmp.ConsideredAlternatives[j]
-//@   ensures [C04 ordered_by_value_then_id] forall i int, j int :: 0 <= i && i < j && j < len(*result) ==> !ordered((*result)[j].AlternativeResult, (*result)[i].AlternativeResult)
+//@   ensures [ordered_by_value_then_id] forall i int, j int :: 0 <= i && i < j && j < len(*result) ==> !ordered((*result)[j].AlternativeResult, (*result)[i].AlternativeResult)
 //@   ensures [links_complete] forall i int, j int :: 0 <= i && i < len(*result) && 0 <= j && j < len(*result) && linkedR(*result, val((*result)[i].AlternativeResult), (*result)[i].Alternative.Id, j) ==>
 //@             exists m int :: 0 <= m && m < len((*result)[i].BetterThanOrSameAs) && (*result)[i].BetterThanOrSameAs[m] == (*result)[j].Alternative.Id
 //@   ensures [links_sound] forall i int, m int :: 0 <= i && i < len(*result) && 0 <= m && m < len((*result)[i].BetterThanOrSameAs) ==>
 //@             exists j int :: 0 <= j && j < len(*result) && (*result)[i].BetterThanOrSameAs[m] == (*result)[j].Alternative.Id && linkedR(*result, val((*result)[i].AlternativeResult), (*result)[i].Alternative.Id, j)
-//@   ensures [C01 no_self_no_duplicates] forall i int, m int :: 0 <= i && i < len(*result) && 0 <= m && m < len((*result)[i].BetterThanOrSameAs) ==>
+//@   ensures [no_self_no_duplicates] forall i int, m int :: 0 <= i && i < len(*result) && 0 <= m && m < len((*result)[i].BetterThanOrSameAs) ==>
 //@             (*result)[i].BetterThanOrSameAs[m] != (*result)[i].Alternative.Id
 //@             && (forall q int :: m < q && q < len((*result)[i].BetterThanOrSameAs) ==> (*result)[i].BetterThanOrSameAs[m] != (*result)[i].BetterThanOrSameAs[q])
 //@   loop 1 invariant [ctx] fresh(results) && len(results) == len(dmp.ConsideredAlternatives)
@@ -799,42 +799,55 @@ package model
 //@ wire AlternativeResult
 //@   property C01 C03 C04 C09 C14 C16 C20
 //@   json Alternative=alternative Evaluation=evaluation
+//@   gotypes Alternative=AlternativeWithCriteria Evaluation=interface{}
 //@ wire EvaluationSingleValue
 //@   property C01 C03 C04 C09 C14 C16 C20
 //@   json Value=value
+//@   gotypes Value=float64
 //@ wire AlternativeWithCriteria
 //@   property C01 C03 C04 C09 C14 C16 C20
 //@   json Id=id Criteria=criteria
+//@   gotypes Id=Alternative Criteria=Weights
 //@ wire AlternativesRankEntry
 //@   property C01 C03 C04 C09 C14 C16 C20
 //@   json BetterThanOrSameAs=betterThanOrSameAs
+//@   gotypes BetterThanOrSameAs=Alternatives
 //@ wire BiasParams
 //@   property C01 C07 C08 C20
 //@   json Name=name Disabled=disabled ApplyProbability=applyProbability Props=props
+//@   gotypes Name=string Disabled=bool ApplyProbability=float64 Props=BiasProps
 //@ wire BiasWithProps
 //@   property C01 C07 C08 C20
 //@   json Bias=bias Props=props
+//@   gotypes Bias=*Bias Props=*BiasParams
 //@ wire BiasedResult
 //@   property C01 C07 C08 C20
 //@   json DMP=dm Props=props
+//@   gotypes DMP=*DecisionMakingParams Props=BiasProps
 //@ wire Criterion
 //@   property C01 C07 C09 C15 C20
 //@   json Id=id Type=type ValuesRange=valuesRange,omitempty
+//@   gotypes Id=string Type=CriterionType ValuesRange=*utils.ValueRange
 //@ wire WeightedCriterion
 //@   property C01 C07 C09 C15 C20
 //@   json Weight=weight
+//@   gotypes Weight=Weight
 //@ wire WeightType
 //@   property C01 C03 C04 C20
 //@   json Weights=weights
+//@   gotypes Weights=Weights
 //@ wire DecisionMaker
 //@   property C01 C07 C08 C09 C20
 //@   json PreferenceFunction=preferenceFunction Biases=biases BiasApplyRandomSeed=biasApplyRandomSeed KnownAlternatives=knownAlternatives ChoseToMake=choseToMake Criteria=criteria MethodParameters=methodParameters
+//@   gotypes PreferenceFunction=string Biases=BiasesParams BiasApplyRandomSeed=int64 KnownAlternatives=[]AlternativeWithCriteria ChoseToMake=[]Alternative Criteria=Criteria MethodParameters=RawMethodParameters
 //@ wire DecisionMakerChoice
 //@   property C01 C07 C08 C09 C20
 //@   json Result=result Biases=biases
+//@   gotypes Result=AlternativesRanking Biases=BiasesParams
 //@ wire PreferenceFunctions
 //@   property C01 C20
 //@   json Functions=functions
+//@   gotypes Functions=[]PreferenceFunction
 
 // ---- small helpers on the request path
 //@ spec biasName(b Bias) string
